@@ -411,6 +411,12 @@ class Interface(object):
         self.method_descriptor_id_to_key = dict(((id(v[0]), k)
                                     for k,v in self.service_method_map.items()))
 
+        # every namespace that a document can use gets its prefix now, so that
+        # what a protocol writes does not depend on whether an interface
+        # document was built before (they used to be allocated on first use).
+        for c in list(self.classes.values()):
+            c.get_namespace_prefix(self)
+
         logger.debug("From this point on, you're not supposed to make any "
                      "changes to the class and method structure of the exposed "
                      "services.")
